@@ -1,9 +1,21 @@
 /-
-Facts about C32's watermark micro-step model (`NoKV.Conc.WM`) that the C05 composition needs:
-what ONE micro-step / one call entry can change (`Eff`, `SpawnEff`), and one more invariant of the
-watermark system (`begun_counted`).  Nothing here is specific to the oracle.
+The ONLY file of the C05 composition that looks inside C32's watermark micro-step model
+(`NoKV.Conc.WM`: `stepThr`, `step`, `progOf`, the invariants `N` and `W`).  Everything the rest of
+NoKVModel/Snap and Props/C05 needs about the watermark is stated here as a lemma about
+
+  * one micro-step of a call record (`Eff`, `run_eff`) and one call entry (`SpawnEff`, `spawn_eff`)
+    of the four calls the oracle makes (`Snap.Call`: Begin, Done, WaitForMark, bare tryAdvance);
+  * which steps keep `txnMark` inside the watermark system WITH the usage contract
+    (`run_reach`, `spawn_reach`, `begin_reach`);
+  * what C32's invariants give in such a state (`above_mark`, `begin_unpublished`, `du_le_last`,
+    `wait_returned_le`, `begun_counted`, `begin_done_stage`, `init_*`).
+
+When Conc/Watermark*.lean changes, this is the file to repair; the statements below are meant to
+stay.  The auxiliary kinds `count` / `publish` (BeginMany) cannot occur under the contract
+(`N.noAux`) and are never spawned by `Snap.Call`.
 -/
 import NoKVModel.Conc.WatermarkContract
+import NoKVModel.Snap.Model
 
 namespace NoKV.Conc.WM
 open NoKV.Conc
@@ -84,8 +96,17 @@ theorem wait_stage (c : WMCfg) (k : Kind) (st : Nat) (i : Nat)
     exfalso
     simp only [progOf] at h
     rcases st with _ | _ <;> simp at h
+  | count j =>
+    exfalso
+    simp only [progOf] at h
+    rcases st with _ | _ | _ <;> simp at h
+  | publish j =>
+    exfalso
+    simp only [progOf] at h
+    rcases st with _ | _ | _ <;> simp at h
 
 theorem stepThr_eff (c : WMCfg) (hc : c.countsFirst = true) (s s' : St) (w : Nat) (t : Thr)
+    (hka : t.kind.isAux = false)
     (ht : s.thr w = some t) (h : stepThr c s w t = some s') : Eff s s' w t := by
   have habs : ∀ (x : Nat) (t' : Thr), s.thr x = none → upd s.thr w (some t') x = none := by
     intro x t' hx
@@ -96,7 +117,7 @@ theorem stepThr_eff (c : WMCfg) (hc : c.countsFirst = true) (s s' : St) (w : Nat
   split at h
   · cases h
   · rename_i ins hins
-    have gi := good_instr c hc t.kind t.stage ins hins
+    have gi := good_instr c hc t.kind hka t.stage ins hins
     cases ins with
     | setLast i =>
       cases h
@@ -137,7 +158,7 @@ theorem stepThr_eff (c : WMCfg) (hc : c.countsFirst = true) (s s' : St) (w : Nat
               rw [hk] at hk'; cases hk'
               simp }
       | false =>
-        have hnb := gi.2.1 i rfl
+        have hnb := (gi.2.1 i rfl).1
         have hkd : t.kind = .done i := by
           cases hkk : t.kind with
           | begin j => simp [hkk, Kind.isBegin] at hnb
@@ -157,6 +178,8 @@ theorem stepThr_eff (c : WMCfg) (hc : c.countsFirst = true) (s s' : St) (w : Nat
             match hst : t.stage with
             | 0 => simp [progOf, hst] at hins
             | n + 1 => simp [progOf, hst] at hins
+          | count j => simp [hkk, Kind.isAux] at hka
+          | publish j => simp [hkk, Kind.isAux] at hka
         exact
           { self := ⟨nextInstr t, by simp [setThr], rfl, by simp [nextInstr], by simp [nextInstr]⟩
             oth := fun x tx hx htx => ⟨tx, by simp [setThr, upd_other _ _ _ _ hx, htx], rfl, rfl⟩
@@ -272,72 +295,173 @@ structure SpawnEff (s s' : St) (w : Nat) (k : Kind) : Prop where
   last : s'.lastIndex = s.lastIndex
   busy : s'.sectionBusy = (s.sectionBusy || k.isBegin)
 
-theorem spawn_eff (c : WMCfg) (ct : Bool) (s s' : St) (w : Nat) (k : Kind)
-    (h : step c ct s (match k with
-      | .begin i => .begin w i
-      | .done i => .done w i
-      | .wait i => .wait w i
-      | .adv => .adv w) = some s') : SpawnEff s s' w k := by
-  cases k with
+open NoKV.Snap in
+/-- entering one of the oracle's four calls -/
+theorem spawn_eff (c : WMCfg) (ct : Bool) (s s' : St) (w : Nat) (call : Call)
+    (h : step c ct s (call.act w) = some s') : SpawnEff s s' w call.kind := by
+  cases call with
   | begin i =>
-    simp only [step] at h
+    simp only [Call.act, step] at h
     split at h
     · rename_i hg; cases h
-      exact ⟨hg.1, by simp [setThr], fun x hx => by simp [setThr, upd_other _ _ _ _ hx], rfl, rfl, rfl, rfl,
-        by simp [Kind.isBegin]⟩
+      exact ⟨hg.1, by simp [setThr, Call.kind], fun x hx => by simp [setThr, upd_other _ _ _ _ hx], rfl, rfl, rfl, rfl,
+        by simp [Kind.isBegin, Call.kind]⟩
     · cases h
   | done i =>
-    simp only [step] at h
+    simp only [Call.act, step] at h
     split at h
     · rename_i hg; cases h
-      exact ⟨hg.1, by simp [setThr], fun x hx => by simp [setThr, upd_other _ _ _ _ hx], rfl, rfl, rfl, rfl,
-        by simp [Kind.isBegin, setThr]⟩
+      exact ⟨hg.1, by simp [setThr, Call.kind], fun x hx => by simp [setThr, upd_other _ _ _ _ hx], rfl, rfl, rfl, rfl,
+        by simp [Kind.isBegin, setThr, Call.kind]⟩
     · cases h
   | wait i =>
-    simp only [step] at h
+    simp only [Call.act, step] at h
     split at h
     · rename_i hg; cases h
-      exact ⟨hg, by simp [setThr], fun x hx => by simp [setThr, upd_other _ _ _ _ hx], rfl, rfl, rfl, rfl,
-        by simp [Kind.isBegin, setThr]⟩
+      exact ⟨hg, by simp [setThr, Call.kind], fun x hx => by simp [setThr, upd_other _ _ _ _ hx], rfl, rfl, rfl, rfl,
+        by simp [Kind.isBegin, setThr, Call.kind]⟩
     · cases h
   | adv =>
-    simp only [step] at h
+    simp only [Call.act, step] at h
     split at h
     · rename_i hg; cases h
-      exact ⟨hg, by simp [setThr], fun x hx => by simp [setThr, upd_other _ _ _ _ hx], rfl, rfl, rfl, rfl,
-        by simp [Kind.isBegin, setThr]⟩
+      exact ⟨hg, by simp [setThr, Call.kind], fun x hx => by simp [setThr, upd_other _ _ _ _ hx], rfl, rfl, rfl, rfl,
+        by simp [Kind.isBegin, setThr, Call.kind]⟩
     · cases h
 
-/-- One more invariant of the watermark system (any contract flag): a `Begin(i)` past its first
+/-! ### staying inside the watermark system with the usage contract -/
+
+/-- one micro-step of a call record, from a state of the contract system: its record, its effect,
+and the successor is again a state of the contract system -/
+theorem run_eff (c : WMCfg) (hc : c.countsFirst = true) (s s' : St) (w : Nat)
+    (hr : Reachable (sys c true) s) (h : step c false s (.run w) = some s') :
+    Reachable (sys c true) s' ∧ ∃ t, s.thr w = some t ∧ Eff s s' w t := by
+  simp only [step] at h
+  cases hw : s.thr w with
+  | none => simp [hw] at h
+  | some t =>
+    simp only [hw] at h
+    have hn := N.reachable hc s hr
+    refine ⟨.step hr (a := .run w) (by show step c true s (.run w) = _; simp only [step, hw]; exact h), t, rfl, ?_⟩
+    exact stepThr_eff c hc s s' w t (hn.noAux w t hw) hw h
+
+open NoKV.Snap in
+/-- entering Done / WaitForMark / a bare tryAdvance never needs the contract -/
+theorem spawn_reach (c : WMCfg) (s s' : St) (w : Nat) (call : Call) (hk : call.kind.isBegin = false)
+    (hr : Reachable (sys c true) s) (h : step c false s (call.act w) = some s') :
+    Reachable (sys c true) s' := by
+  refine .step hr (a := call.act w) ?_
+  show step c true s (call.act w) = some s'
+  cases call with
+  | begin i => simp [Call.kind, Kind.isBegin] at hk
+  | done i => exact h
+  | wait i => exact h
+  | adv => exact h
+
+/-- entering `Begin(i)` with the contract's side conditions established by the caller -/
+theorem begin_reach (c : WMCfg) (s s' : St) (w i : Nat) (hpos : 0 < i) (hbusy : s.sectionBusy = false)
+    (hlast : s.lastIndex < i) (hr : Reachable (sys c true) s)
+    (h : step c false s (.begin w i) = some s') : Reachable (sys c true) s' := by
+  refine .step hr (a := .begin w i) ?_
+  show step c true s (.begin w i) = some s'
+  simp only [step] at h ⊢
+  split at h
+  · rename_i hg
+    rw [if_pos ⟨hg.1, Or.inl hpos, fun _ => ⟨hbusy, hlast⟩⟩]
+    exact h
+  · cases h
+
+/-! ### what C32's invariants give in a state of the contract system -/
+
+/-- `doneUntil ≤ lastIndex` -/
+theorem du_le_last (c : WMCfg) (hc : c.countsFirst = true) (s : St) (hr : Reachable (sys c true) s) :
+    s.doneUntil ≤ s.lastIndex := (N.reachable hc s hr).le
+
+/-- an index that is counted and whose `Done` has not decremented is above the mark -/
+theorem above_mark (c : WMCfg) (hc : c.countsFirst = true) (s : St) (hr : Reachable (sys c true) s) (j : Nat)
+    (hcnt : 1 ≤ s.nCounted j) (hdec : s.nDoneDec j = 0) : s.doneUntil < j := by
+  have hn := N.reachable hc s hr
+  cases Nat.lt_or_ge s.doneUntil j with
+  | inl h1 => exact h1
+  | inr h1 => have := hn.m j h1; omega
+
+/-- a `Begin(i)` that has not executed its `setLastIndex` yet: `lastIndex < i` -/
+theorem begin_unpublished (c : WMCfg) (hc : c.countsFirst = true) (s : St) (hr : Reachable (sys c true) s)
+    (w : Nat) (t : Thr) (i : Nat) (hw : s.thr w = some t) (hk : t.kind = .begin i) (hst : t.stage ≤ 2) :
+    s.lastIndex < i := by
+  have := ((N.reachable hc s hr).ti w t hw).preLt ⟨by rw [hk]; rfl, hst⟩
+  rw [hk] at this
+  exact this
+
+/-- `WaitForMark(i)` returns only with `doneUntil ≥ i` -/
+theorem wait_returned_le (c : WMCfg) (ct : Bool) (s : St) (hr : Reachable (sys c ct) s) (w : Nat) (t : Thr)
+    (i : Nat) (hw : s.thr w = some t) (hk : t.kind = .wait i) (hret : t.returned = true) :
+    i ≤ s.doneUntil := by
+  have := ((W.reachable c ct s hr) w t hw).returnedLe hret
+  rw [hk] at this
+  exact this
+
+/-- a `Begin` whose program has run out is past every instruction (stage ≥ 4 in either order) -/
+theorem begin_done_stage (c : WMCfg) (i st : Nat) (h : (progOf c (.begin i))[st]? = none) : 4 ≤ st := by
+  simp only [List.getElem?_eq_none_iff] at h
+  cases hcf : c.countsFirst <;> simp [progOf, hcf] at h <;> omega
+
+theorem init_sectionBusy : initSt.sectionBusy = false := rfl
+theorem init_lastIndex : initSt.lastIndex = 0 := rfl
+theorem init_nDoneDec (j : Nat) : initSt.nDoneDec j = 0 := rfl
+theorem init_thr (w : Nat) : initSt.thr w = none := rfl
+
+/-- One more invariant of the watermark system under the contract: a `Begin(i)` past its first
 micro-step has been counted. -/
-theorem begun_counted (c : WMCfg) (hc : c.countsFirst = true) (ct : Bool) (s : St)
-    (hr : Reachable (sys c ct) s) :
+theorem begun_counted (c : WMCfg) (hc : c.countsFirst = true) (s : St)
+    (hr : Reachable (sys c true) s) :
     ∀ w t i, s.thr w = some t → t.kind = .begin i → 1 ≤ t.stage → 1 ≤ s.nCounted i := by
-  refine Reachable.invariant (S := sys c ct)
-    (fun s => ∀ w t i, s.thr w = some t → t.kind = .begin i → 1 ≤ t.stage → 1 ≤ s.nCounted i) ?_ ?_ s hr
-  · intro s hs w t i ht
+  refine Reachable.invariant (S := sys c true)
+    (fun s => N s ∧ ∀ w t i, s.thr w = some t → t.kind = .begin i → 1 ≤ t.stage → 1 ≤ s.nCounted i) ?_ ?_ s hr
+    |>.2
+  · intro s hs
     cases hs
-    simp [initSt] at ht
-  · intro s a s' ih hst w t i ht hk hstage
-    have spawnCase : ∀ (x : Nat) (k : Kind), SpawnEff s s' x k → 1 ≤ s'.nCounted i := by
-      intro x k se
-      rw [se.cnt]
+    exact ⟨N.init, fun w t i ht => by simp [initSt] at ht⟩
+  · intro s a s' ⟨hn, ih⟩ hst
+    have hst : step c true s a = some s' := hst
+    refine ⟨N.preserved hc hn hst, ?_⟩
+    intro w t i ht hk hstage
+    -- a call entry: the new record is at stage 0, the counters do not move
+    have spawnCase : ∀ (x : Nat) (t0 : Thr), t0.stage = 0 → s'.thr x = some t0 →
+        (∀ y, y ≠ x → s'.thr y = s.thr y) → s'.nCounted = s.nCounted → 1 ≤ s'.nCounted i := by
+      intro x t0 h0 hself hoth hcnt
+      rw [hcnt]
       by_cases hw : w = x
-      · subst hw; rw [se.self] at ht; cases ht; simp at hstage
-      · rw [se.oth w hw] at ht; exact ih w t i ht hk hstage
+      · subst hw; rw [hself] at ht; cases ht; omega
+      · rw [hoth w hw] at ht; exact ih w t i ht hk hstage
     cases a with
-    | begin x j => exact spawnCase x (.begin j) (spawn_eff c ct s s' x (.begin j) hst)
-    | done x j => exact spawnCase x (.done j) (spawn_eff c ct s s' x (.done j) hst)
-    | wait x j => exact spawnCase x (.wait j) (spawn_eff c ct s s' x (.wait j) hst)
-    | adv x => exact spawnCase x .adv (spawn_eff c ct s s' x .adv hst)
+    | begin x j =>
+      simp only [step] at hst; split at hst <;> cases hst
+      exact spawnCase x { kind := .begin j } rfl (by simp [setThr]) (fun y hy => by simp [setThr, upd_other _ _ _ _ hy]) rfl
+    | done x j =>
+      simp only [step] at hst; split at hst <;> cases hst
+      exact spawnCase x { kind := .done j } rfl (by simp [setThr]) (fun y hy => by simp [setThr, upd_other _ _ _ _ hy]) rfl
+    | wait x j =>
+      simp only [step] at hst; split at hst <;> cases hst
+      exact spawnCase x { kind := .wait j } rfl (by simp [setThr]) (fun y hy => by simp [setThr, upd_other _ _ _ _ hy]) rfl
+    | adv x =>
+      simp only [step] at hst; split at hst <;> cases hst
+      exact spawnCase x { kind := .adv } rfl (by simp [setThr]) (fun y hy => by simp [setThr, upd_other _ _ _ _ hy]) rfl
+    | count x j =>
+      simp only [step] at hst; split at hst
+      · rename_i hg; exact absurd hg.2.1 (by simp)
+      · cases hst
+    | publish x j =>
+      simp only [step] at hst; split at hst
+      · rename_i hg; exact absurd hg.2 (by simp)
+      · cases hst
     | run x =>
-      change step c ct s (.run x) = some s' at hst
       simp only [step] at hst
       cases hx : s.thr x with
       | none => simp [hx] at hst
       | some tx =>
         simp only [hx] at hst
-        have e := stepThr_eff c hc s s' x tx hx hst
+        have e := stepThr_eff c hc s s' x tx (hn.noAux x tx hx) hx hst
         by_cases hw : w = x
         · subst hw
           obtain ⟨t', ht', hk', h1, h2⟩ := e.self
